@@ -1047,5 +1047,6 @@ func runLargeCase(c LargeCase, o *vh.Obs) *vh.Failure {
 
 func TestC03(t *testing.T) {
 	vh.Drive(t, vh.Spec[Case]{Name: "ops", Quick: 320000, Thorough: 3000000, Gen: genCase, Run: runCase})
+	vh.Drive(t, vh.Spec[vh.Conc[Case]]{Name: "concurrent-callers", Quick: 4000, Thorough: 120000, Gen: vh.GenConc(genCase), Run: vh.RunConc(runCase), Repeat: 20})
 	vh.Drive(t, vh.Spec[LargeCase]{Name: "large-meshes", Quick: 400, Thorough: 12000, Gen: genLargeCase, Run: runLargeCase})
 }
